@@ -39,7 +39,16 @@ func edgeDominates(from *ssa.BasicBlock, idx int, blk *ssa.BasicBlock) bool {
 // CondFact describes a branch condition known to hold at a block.
 type CondFact struct {
 	If    *ssa.If
-	Truth bool // the condition evaluated to Truth on the dominating edge
+	Truth bool      // the condition evaluated to Truth on the dominating edge
+	Cond  ssa.Value // for facts collected along a path: the condition with phis resolved along that path (nil otherwise)
+}
+
+// C returns the condition the fact is about (resolved along the path when known).
+func (cf CondFact) C() ssa.Value {
+	if cf.Cond != nil {
+		return cf.Cond
+	}
+	return cf.If.Cond
 }
 
 // dominatingConds lists the (If, truth) facts that hold on every path to blk.
@@ -54,9 +63,9 @@ func dominatingConds(blk *ssa.BasicBlock) []CondFact {
 			continue
 		}
 		if edgeDominates(d, 0, blk) {
-			out = append(out, CondFact{iff, true})
+			out = append(out, CondFact{If: iff, Truth: true})
 		} else if edgeDominates(d, 1, blk) {
-			out = append(out, CondFact{iff, false})
+			out = append(out, CondFact{If: iff, Truth: false})
 		}
 	}
 	// the block's own position inside its dominator chain also includes blk's direct single pred
